@@ -1,9 +1,13 @@
-from typing import Final
+from typing import Final, TYPE_CHECKING
 
 from pyteal.types import TealType, require_type
+from pyteal.errors import verifyFieldVersion, verifyProgramVersion
 from pyteal.ir import Op
 from pyteal.ast.expr import Expr
 from pyteal.ast.maybe import MaybeValue
+
+if TYPE_CHECKING:
+    from pyteal.compiler import CompileOptions
 
 
 class AssetHolding:
@@ -287,11 +291,22 @@ class AssetParam:
                 evaluate to uint64.
         """
         require_type(asset, TealType.uint64)
+
+        def field_and_program_version_check(options: "CompileOptions"):
+            verifyProgramVersion(
+                minVersion=Op.asset_params_get.min_version,
+                version=options.version,
+                msg=f"{Op.asset_params_get.value} unavailable",
+            )
+            # the AssetCreator field was added to asset_params_get in program version 5
+            verifyFieldVersion("AssetCreator", 5, options.version)
+
         return MaybeValue(
             Op.asset_params_get,
             TealType.bytes,
             immediate_args=["AssetCreator"],
             args=[asset],
+            compile_check=field_and_program_version_check,
         )
 
 
